@@ -1,8 +1,8 @@
 package props
 
 import (
-	"math"
 	"fmt"
+	"math"
 	"reflect"
 	"strings"
 
@@ -92,100 +92,144 @@ func c15Predicates(c *core.Ctx, t reflect.Type) {
 		for _, pr := range preds {
 			for _, soft := range []bool{false, true} {
 				for _, prior := range []string{"none", "empty", "some", "all"} {
-					vals := gen.SmallInts(t, n, c.Rng, 1, 5)
-					if t == model.TStr {
-						vals = gen.Ramp(t, n, 1)
-					}
-					m := model.New(t, shape, vals)
-					op, err := gen.Build(m, gen.LC, c.Rng)
-					if err != nil {
-						c.Inconclusive("operand-precondition")
-						continue
-					}
-					d := op.D
-					var pm []bool
-					switch prior {
-					case "empty":
-						pm = make([]bool, n)
-					case "some":
-						pm = make([]bool, n)
-						for i := range pm {
-							pm[i] = c.Rng.Intn(2) == 0
+					for _, lay := range []string{gen.LC, gen.LT, gen.LF, gen.LS, gen.LSS} {
+						vals := gen.SmallInts(t, n, c.Rng, 1, 5)
+						if t == model.TStr {
+							vals = gen.Ramp(t, n, 1)
 						}
-						pm[0] = true
-					case "all":
-						pm = make([]bool, n)
-						for i := range pm {
-							pm[i] = true
+						m := model.New(t, shape, vals)
+						op, err := gen.Build(m, lay, c.Rng)
+						if err != nil || op.Layout != lay {
+							if lay == gen.LC {
+								c.Inconclusive("operand-precondition")
+							}
+							continue
 						}
-					}
-					if pm != nil {
-						d.MaskFromSlice(append([]bool(nil), pm...))
-					}
-					if soft {
-						d.SoftenMask()
-					} else {
-						d.HardenMask()
-					}
-					args := []interface{}{vals[c.Rng.Intn(n)]}
-					if pr.args == 2 {
-						a, b := vals[c.Rng.Intn(n)], vals[c.Rng.Intn(n)]
-						if model.Less(b, a) {
-							a, b = b, a
+						var pm []bool
+						switch prior {
+						case "empty":
+							pm = make([]bool, n)
+						case "some":
+							pm = make([]bool, n)
+							for i := range pm {
+								pm[i] = c.Rng.Intn(2) == 0
+							}
+							pm[0] = true
+						case "all":
+							pm = make([]bool, n)
+							for i := range pm {
+								pm[i] = true
+							}
 						}
-						args = []interface{}{a, b}
-					}
-					snap := op.Snap()
-					var perr error
-					var found bool
-					p, msg := core.Catch(func() { perr, found = callMethod(d, pr.name, args...) })
-					sh := "hard"
-					if soft {
-						sh = "soft"
-					}
-					key := core.Sig(pr.name, tn, sh, prior, shapeClass(shape))
-					caseKey := fmt.Sprintf("%s/%s/%s/%s/%s", pr.name, tn, sh, prior, shapeStr(shape))
-					desc := map[string]interface{}{"predicate": pr.name, "dtype": tn, "soft": soft, "prior": pm, "values": short(vals), "args": short(args), "shape": shape}
-					c.Eval(key, true)
-					if c.WantSample(pr.name) {
-						c.Sample(pr.name, desc)
-					}
-					viol := func(sym string, w, g interface{}) {
-						c.Violation(core.Sig(pr.name, dtypeClass(t), sh, "prior="+prior, sym), caseKey, desc, w, g)
-					}
-					if !found {
-						continue
-					}
-					if p {
-						viol("panic", "a mask", msg)
-						continue
-					}
-					if perr != nil {
-						c.Refused(pr.name + "|" + tn)
-						continue
-					}
-					if len(op.Changed(snap)) > 0 {
-						viol("data-changed", "data untouched", fmt.Sprint(op.Changed(snap)))
-						continue
-					}
-					want := make([]bool, n)
-					for i, v := range vals {
-						pv := pr.fn(v, args)
-						if soft || pm == nil {
-							want[i] = pv
+						if pm != nil {
+							if err := op.AttachMask(append([]bool(nil), pm...)); err != nil {
+								continue // this layout cannot carry a mask before the call
+							}
+						}
+						d := op.D
+						isView := op.D != op.Root
+						var rootMaskBefore []bool
+						if isView && op.Root.IsMasked() {
+							rootMaskBefore = append([]bool(nil), op.Root.Mask()...)
+						}
+						if soft {
+							d.SoftenMask()
 						} else {
-							want[i] = pm[i] || pv
+							d.HardenMask()
 						}
-					}
-					got := d.Mask()
-					if len(got) != n {
-						viol("mask-length", n, len(got))
-						continue
-					}
-					for i := range want {
-						if got[i] != want[i] {
-							viol("wrong-mask", fmt.Sprint(want), fmt.Sprint(got))
-							break
+						args := []interface{}{vals[c.Rng.Intn(n)]}
+						if pr.args == 2 {
+							a, b := vals[c.Rng.Intn(n)], vals[c.Rng.Intn(n)]
+							if model.Less(b, a) {
+								a, b = b, a
+							}
+							args = []interface{}{a, b}
+						}
+						snap := op.Snap()
+						var perr error
+						var found bool
+						p, msg := core.Catch(func() { perr, found = callMethod(d, pr.name, args...) })
+						sh := "hard"
+						if soft {
+							sh = "soft"
+						}
+						key := core.Sig(pr.name, tn, sh, prior, shapeClass(shape), lay)
+						caseKey := fmt.Sprintf("%s/%s/%s/%s/%s/%s", pr.name, tn, sh, prior, shapeStr(shape), lay)
+						desc := map[string]interface{}{"predicate": pr.name, "dtype": tn, "soft": soft, "prior": pm, "values": short(vals), "args": short(args), "shape": shape, "layout": lay, "recipe": op.Recipe}
+						c.Eval(key, true)
+						if c.WantSample(pr.name) {
+							c.Sample(pr.name, desc)
+						}
+						viol := func(sym string, w, g interface{}) {
+							if lay != gen.LC {
+								sym = lay + "|" + sym
+							}
+							c.Violation(core.Sig(pr.name, dtypeClass(t), sh, "prior="+prior, sym), caseKey, desc, w, g)
+						}
+						if p {
+							viol("panic", "a mask", msg)
+							continue
+						}
+						if !found {
+							continue
+						}
+						if perr != nil {
+							c.Refused(pr.name + "|" + tn)
+							continue
+						}
+						if len(op.Changed(snap)) > 0 {
+							viol("data-changed", "data untouched", fmt.Sprint(op.Changed(snap)))
+							continue
+						}
+						want := make([]bool, n)
+						for i, v := range vals {
+							pv := pr.fn(v, args)
+							if soft || pm == nil {
+								want[i] = pv
+							} else {
+								want[i] = pm[i] || pv
+							}
+						}
+						got := d.Mask()
+						if lay != gen.LC {
+							// the mask is indexed by storage offset: it is read at the offsets the flat iterator yields, in logical order
+							var why string
+							if got, why = maskInLogicalOrder(d); why != "" {
+								viol(why, "a mask with one entry per storage element", fmt.Sprint(len(d.Mask()), " entries, storage ", d.DataSize()))
+								continue
+							}
+						}
+						if len(got) != n {
+							viol("mask-length", n, len(got))
+							continue
+						}
+						bad := false
+						for i := range want {
+							if got[i] != want[i] {
+								viol("wrong-mask", fmt.Sprint(want), fmt.Sprint(got))
+								bad = true
+								break
+							}
+						}
+						if bad || !isView {
+							continue
+						}
+						// a view: the elements of the parent that are not the view's keep their mask state
+						inView := map[int]bool{}
+						for _, o := range op.Off {
+							inView[o] = true
+						}
+						switch {
+						case rootMaskBefore == nil && op.Root.IsMasked():
+							viol("parent-became-masked", "the parent stays unmasked", fmt.Sprint(op.Root.Mask()))
+						case rootMaskBefore != nil:
+							now := op.Root.Mask()
+							for o := range rootMaskBefore {
+								if !inView[o] && (o >= len(now) || now[o] != rootMaskBefore[o]) {
+									viol("mask-outside-view-changed", fmt.Sprint(rootMaskBefore), fmt.Sprint(now))
+									break
+								}
+							}
 						}
 					}
 				}
@@ -275,6 +319,23 @@ func c15Predicates(c *core.Ctx, t reflect.Type) {
 		mk := op.D.Mask()
 		c.Control(len(mk) == 3 && !mk[0] && mk[1] && !mk[2])
 	}
+}
+
+// maskInLogicalOrder reads the mask of d at the storage offsets its flat iterator yields.
+func maskInLogicalOrder(d *tensor.Dense) ([]bool, string) {
+	if !d.IsMasked() {
+		return nil, "not-masked-afterwards"
+	}
+	mk := d.Mask()
+	it := tensor.FlatIteratorFromDense(d)
+	var out []bool
+	for i, err := it.Next(); err == nil; i, err = it.Next() {
+		if i < 0 || i >= len(mk) {
+			return nil, "offset-outside-mask"
+		}
+		out = append(out, mk[i])
+	}
+	return out, ""
 }
 
 type rng struct{ s, e int }
